@@ -7,6 +7,8 @@
  *   dr_copy_pi_dag, dr_pi_dag_copy_and_prune_nodes, dr_pi_dag_get_logical_node_counts,
  *   dr_string_table_init / _find / _append / _intern / _flatten / _destroy                  (src/profiler/dr_dump.c)
  *   dr_pi_dag_chronological_traverse and the event queue (dr_event_queue_*)                (src/profiler/chronological.c)
+ *   dr_make_pi_dag, dr_pi_dag_enum_nodes, dr_dag_count_nodes, dr_copy_dag_node_1, dr_copy_children_nodes (dr_dump.c) and
+ *   the dr_dag_node_stack of dag_recorder_impl.h                                            (h_make, at the end of this file)
  *
  * The DAG (the one of c18_dump.c: the layout dr_pi_dag_enum_nodes produces, relative offsets), with a concrete serial
  * schedule [start, end] of the leaves:
@@ -29,6 +31,9 @@
  *   obligations on the converted DAG, plus "shrinking preserves the totals": the root summary of the copy (t_1, t_inf,
  *   interval counts, edge counts) is the root summary of the original, the expected number of nodes remains, and the file
  *   names of the surviving nodes are the same strings.
+ *
+ * h_make:  the recorder-side flattening dr_make_pi_dag on the pointer-based DAG of the same shape and state, then the same
+ *   (c) and (b) obligations on its result: the offsets are the ones the REAL dr_pi_dag_enum_nodes produces.
  *
  * libc: qsort is TRUSTED (a stub that sorts with the comparator it is given); malloc serves each request from a typed
  * static pool in the order planned by the harness (a request that does not fit is an obligation failure); free is a no-op.
@@ -80,12 +85,13 @@ void * verif_malloc_plan(size_t sz) {
 }
 void verif_free(void * p) { }
 
-/* libc memset (--replace-calls memset:verif_memset): the one use in the code under contract clears a fresh edge.  A typed
-   assignment instead of CBMC's byte-wise model keeps the concrete edge array concrete for the symbolic execution */
+/* libc memset (--replace-calls memset:verif_memset): the two uses in the code under contract clear a fresh edge and the fresh
+   node array.  Typed assignments instead of CBMC's byte-wise model keep the concrete arrays concrete for the symbolic execution */
 void * verif_memset(void * s, int c, size_t n) {
-  __CPROVER_assert(c == 0 && n == sizeof(dr_pi_dag_edge), "model of memset: clears one edge");
-  dr_pi_dag_edge z = {0};
-  *(dr_pi_dag_edge *)s = z;
+  if (n == sizeof(dr_pi_dag_edge)) { __CPROVER_assert(c == 0, "model of memset: clears one edge"); dr_pi_dag_edge z = {0}; *(dr_pi_dag_edge *)s = z; return s; }
+  __CPROVER_assert(s == NODE_POOL2 && c == 0 && n % sizeof(dr_pi_dag_node) == 0 && n <= sizeof(NODE_POOL2), "model of memset: clears one edge, or the fresh node array");
+  dr_pi_dag_node zn = {0};
+  for (int i = 0; i < NMAX; i++) if ((size_t)i < n / sizeof(dr_pi_dag_node)) NODE_POOL2[i] = zn;
   return s;
 }
 
@@ -185,9 +191,9 @@ static void check_offsets(const dr_pi_dag * H) {
     if (x->info.kind == dr_dag_node_kind_create_task)
       __CPROVER_assert(x->child_offset > 0 && i + x->child_offset < H->n, "well-formed: a create node's child offset refers to a later node inside the DAG");
     else if (x->info.kind >= dr_dag_node_kind_section)
-      __CPROVER_assert((x->subgraphs_begin_offset == 0 && x->subgraphs_end_offset == 0) ||
+      __CPROVER_assert((x->subgraphs_begin_offset == x->subgraphs_end_offset && 0 <= x->subgraphs_begin_offset && i + x->subgraphs_begin_offset <= H->n) ||
                        (0 < x->subgraphs_begin_offset && x->subgraphs_begin_offset < x->subgraphs_end_offset && i + x->subgraphs_end_offset <= H->n),
-                       "well-formed: a section / task's subgraph range is empty (contracted) or a range of later nodes inside the DAG");
+                       "well-formed: a section / task's subgraph range is empty (contracted: begin == end, at most one past the last node) or a range of later nodes inside the DAG");
   }
 }
 static void check_edges(const dr_pi_dag * H) {
@@ -314,5 +320,75 @@ void h_copy(void) {
                      "conversion: a surviving node keeps its file name (re-interned into the new string table)");
   }
   __CPROVER_assert(G2.S->n == 2 && G2.S->sz == sizeof(S_OUT), "conversion: the new string table holds the two names in use");
+  VERIF_CANARY();
+}
+
+/* ------------------------------------------------------------------ recorder side: dr_make_pi_dag (dr_dag_count_nodes,
+   dr_pi_dag_enum_nodes, dr_copy_dag_node_1, dr_copy_children_nodes, the dr_dag_node_stack of dag_recorder_impl.h, string
+   interning, then enum_edges / sort / set_edge_ptrs / flatten) on the pointer-based DAG of the same shape and state;
+   absolute clocks 100..111, start clock 100.  malloc by size here (--replace-calls malloc:verif_malloc_mk): the node
+   array, the flattened string table and the edge array are the typed pools, requests of at most 32 bytes (stack cells,
+   string cells, arrays of child pointers) are fresh dynamic objects */
+dr_dag_node PN[NMAX];
+dr_dag_node nondet_dag_node(void);
+char FILE_A[4], FILE_B[4];
+int g_small;
+void * verif_malloc_mk(size_t sz) {
+  if (sz == 0) return &ZERO_OBJ;
+  if (sz == sizeof(dr_pi_dag_node) * NMAX || (sz % sizeof(dr_pi_dag_node) == 0 && sz <= sizeof(NODE_POOL2))) return NODE_POOL2;
+  if (sz == sizeof(S_OUT)) return &S_OUT;
+  if (sz <= 32) { g_small++; return __CPROVER_allocate(sz, 0); }
+  __CPROVER_assert(sz <= sizeof(EDGE_POOL) && sz % sizeof(dr_pi_dag_edge) == 0, "bounded model of malloc: edge array");
+  return EDGE_POOL;
+}
+static dr_dag_node * pn(int i, int kind, int in_edge, long t0, long t1, int worker, int file) {
+  PN[i] = nondet_dag_node();
+  PN[i].info.kind = (dr_dag_node_kind_t)kind; PN[i].info.in_edge_kind = (dr_dag_edge_kind_t)in_edge; PN[i].info.worker = worker;
+  PN[i].info.start.t = t0; PN[i].info.end.t = t1; PN[i].info.last_start_t = t0; PN[i].info.first_ready_t = t0;
+  PN[i].info.start.pos.file = file ? FILE_B : FILE_A; PN[i].info.end.pos.file = file ? FILE_A : FILE_B;
+  PN[i].next = 0; PN[i].forward = 0;
+  if (kind >= dr_dag_node_kind_section) { PN[i].subgraphs->n = 0; PN[i].subgraphs->head = 0; PN[i].subgraphs->tail = 0; PN[i].parent_section = 0; }
+  else PN[i].child = 0;
+  return &PN[i];
+}
+static void kids(dr_dag_node * p, dr_dag_node * first, int n) {
+  p->subgraphs->n = n; p->subgraphs->head = first; p->subgraphs->tail = first + (n - 1);
+  for (int j = 0; j < 4; j++) if (j + 1 < n) first[j].next = &first[j + 1];
+}
+void h_make(void) {
+  setup();
+  FILE_A[0] = 'a'; FILE_A[1] = '.'; FILE_A[2] = 'c'; FILE_A[3] = 0; FILE_B[0] = 'b'; FILE_B[1] = '.'; FILE_B[2] = 'c'; FILE_B[3] = 0;
+  GS.worker_specific_state_array = 0; GS.worker_specific_state_list = 0;
+  /* pointer-based DAG of the same shape; PN[] in any order (here: the order the recorder allocates is irrelevant) */
+  dr_dag_node * u = pn(0, dr_dag_node_kind_task, dr_dag_edge_kind_create, 100, 111, -1, 0);
+  dr_dag_node * a = pn(1, dr_dag_node_kind_section, dr_dag_edge_kind_create, 100, 106, -1, 0);
+  pn(2, dr_dag_node_kind_other, resume_kind(0), 106, 107, 0, 1);
+  dr_dag_node * b = pn(3, dr_dag_node_kind_section, dr_dag_edge_kind_other_cont, 107, 110, 0, 1);
+  pn(4, dr_dag_node_kind_end_task, resume_kind(1), 110, 111, 0, 0);
+  kids(u, a, 4);
+  int nn = 5;
+  if (!A_CONTRACTED) {
+    dr_dag_node * y1 = pn(5, dr_dag_node_kind_create_task, dr_dag_edge_kind_create, 100, 101, 0, 0);
+    pn(6, dr_dag_node_kind_other, dr_dag_edge_kind_create_cont, 102, 103, 0, 1);
+    dr_dag_node * y2 = pn(7, dr_dag_node_kind_create_task, dr_dag_edge_kind_other_cont, 103, 104, 0, 0);
+    pn(8, dr_dag_node_kind_wait_tasks, dr_dag_edge_kind_create_cont, 105, 106, 0, 1);
+    kids(a, y1, 4);
+    y1->child = pn(9, dr_dag_node_kind_task, dr_dag_edge_kind_create, 101, 102, 1, 1);
+    y2->child = pn(10, dr_dag_node_kind_task, dr_dag_edge_kind_create, 104, 105, 1, 0);
+    nn += 6;
+  }
+  if (!B_CONTRACTED) {
+    dr_dag_node * y3 = pn(11, dr_dag_node_kind_create_task, dr_dag_edge_kind_other_cont, 107, 108, 0, 1);
+    pn(12, dr_dag_node_kind_wait_tasks, dr_dag_edge_kind_create_cont, 109, 110, 0, 0);
+    kids(b, y3, 2);
+    y3->child = pn(13, dr_dag_node_kind_task, dr_dag_edge_kind_create, 108, 109, 0, 1);
+    nn += 3;
+  }
+  dr_make_pi_dag(&G2, u, 100);
+  __CPROVER_assert(G2.n == nn, "flattening: one position-independent node per node of the recorded DAG");
+  __CPROVER_assert(G2.start_clock == 100 && G2.T[0].info.start.t == 0 && G2.T[0].info.end.t == 11, "flattening: times are made relative to the start clock");
+  check_offsets(&G2);
+  check_edges(&G2);
+  __CPROVER_assert(G2.S->n == 2 && G2.S->sz == sizeof(S_OUT), "flattening: the string table holds the two names in use");
   VERIF_CANARY();
 }
